@@ -99,6 +99,9 @@ func buildVocab() *Vocab {
 		mustTmp("q", time.Date(1969, 12, 31, 23, 59, 59, 999999999, time.UTC)), mustTmp("p", time.Date(9999, 12, 31, 23, 59, 59, 999999999, time.UTC)),
 		// the empty identifier (indices 16, 17)
 		mustParsePred(`""@[]`), mustParsePred(`""@[2010-06-01T00:00:00.0000005Z]`),
+		// neighbours one nanosecond apart far outside the int64 nanosecond range (indices 18-21)
+		mustTmp("p", time.Date(9999, 12, 31, 23, 59, 59, 999999998, time.UTC)), mustTmp("p", time.Time{}.UTC().Add(1)),
+		mustTmp("q", time.Date(3000, 1, 1, 0, 0, 0, 0, time.UTC)), mustTmp("q", time.Date(3000, 1, 1, 0, 0, 0, 1, time.UTC)),
 	}
 	v.PredsClean = 8
 	v.Objs = []*triple.Object{
@@ -194,8 +197,9 @@ func genUniverseX(r *Rand, n int, rich, collide, zones, extreme bool) []TSpec {
 		}
 	}
 	if extreme {
-		for _, k := range pickDistinct(r, 4, 1+r.Intn(3)) {
-			preds = append(preds, 12+k)
+		far := []int{12, 13, 14, 15, 18, 19, 20, 21}
+		for _, k := range pickDistinct(r, len(far), 1+r.Intn(4)) {
+			preds = append(preds, far[k])
 		}
 		preds = append(preds, 2+r.Intn(3), 5)
 	}
